@@ -95,7 +95,13 @@ impl<'r> Cc<'r> {
             2 => format!("λ {} ž{}", n, hint),
             3 => format!("{}", n),
             // names that look like FML's own but numbered differently
-            _ => format!("if:consequent:{}", 1000 + n),
+            4 => format!("if:consequent:{}", 1000 + n),
+            // numeric suffixes at the limits of the integer types (a reader that parses them must not
+            // overflow), bare numbers counting down from 2^64 - 1, suffixes that only look numeric
+            5 => format!("{}:{}", hint, u64::MAX - (n as u64 - 1)),
+            6 => format!("{}", u64::MAX - (n as u64 - 1)),
+            7 => format!("{}{}:{}", hint, n, [4294967295u64, 4294967296, 65535, 65536, 2147483647, 2147483648, 9223372036854775807, 9223372036854775808][n % 8]),
+            _ => format!("{}:{}", n, ["-1", "+1", "0x10", "1e3", " 7", "007", "", ":"][n % 8]),
         }
     }
 
@@ -492,7 +498,7 @@ pub fn permute(p: &Prog, perm: &[u16]) -> Prog {
 /// Compile a whole program. Err = the program is outside what altcc translates
 /// (static failures, function definitions in expression position).
 pub fn compile(top: &AST, rng: &mut Rng) -> Result<Prog, String> {
-    let conv = Conv { dedup: rng.coin(), label_style: rng.below(5) as u8, gap_chance: rng.below(4) as u32, feeny: rng.coin(), layout_b: rng.coin() };
+    let conv = Conv { dedup: rng.coin(), label_style: rng.below(9) as u8, gap_chance: rng.below(4) as u32, feeny: rng.coin(), layout_b: rng.coin() };
     let stmts = match top {
         AST::Top(ss) => ss,
         _ => return Err("not a Top".into()),
